@@ -1,7 +1,8 @@
 (* C01  Optimisation never changes a verdict: proofs.
 
    Proved as stated in Properties/C01.v: rewrite_exact, exact_implies_verdict, refuted_D13,
-   refuted_D14, refuted_D16.
+   refuted_D16.  refuted_D14 is FALSE since crate fix D14 (shake_0 keeps the group a quantifier
+   holds); fixed_D14 states what the same witness does now.
    False as stated (witnesses below, evaluated with vm_compute), proved with extra shape
    hypotheses under the name <name>_alt:
      coalesce_exact                  -> coalesce_exact_alt   (+ no_nested, cmp_leaves)
@@ -1400,8 +1401,37 @@ Lemma shake0_match_head : forall fuel k e x, shake0 fuel (EMatch k e) = Ok x -> 
 Proof.
   intros [|fu] k e x H.
   - injection H as <-. eauto.
-  - cbn [shake0] in H. apply bind_ok_inv in H. destruct H as [x0 [_ H]]. injection H as <-. eauto.
+  - destruct e; cbn [shake0] in H; apply bind_ok_inv in H; destruct H as [x0 [_ H]];
+      injection H as <-; eauto.
 Qed.
+
+(* the two arms of shake_0 on a quantifier (fix D14: a group operand stays a group) *)
+Lemma shake0_match_group : forall fu k s l,
+  shake0 (S fu) (EMatch k (EGroup s l)) =
+  (do l' <- mapM (fun x => shake0 fu x) l; Ok (EMatch k (EGroup s l'))).
+Proof. reflexivity. Qed.
+
+Lemma shake0_match_other : forall fu k e, (forall s l, e <> EGroup s l) ->
+  shake0 (S fu) (EMatch k e) = (do x <- shake0 fu e; Ok (EMatch k x)).
+Proof. intros fu k e H. destruct e; try reflexivity. exfalso. eapply H. reflexivity. Qed.
+
+Lemma is_group_dec : forall e, (exists s l, e = EGroup s l) \/ (forall s l, e <> EGroup s l).
+Proof. intros e. destruct e; try (right; discriminate). left. eauto. Qed.
+
+Lemma shake0_match_inv : forall fu k e e', shake0 (S fu) (EMatch k e) = Ok e' ->
+  (exists s l l', e = EGroup s l /\ mapM (fun x => shake0 fu x) l = Ok l' /\
+                  e' = EMatch k (EGroup s l')) \/
+  ((forall s l, e <> EGroup s l) /\ exists x, shake0 fu e = Ok x /\ e' = EMatch k x).
+Proof.
+  intros fu k e e' H. destruct (is_group_dec e) as [[s [l ->]]|Hng].
+  - left. rewrite shake0_match_group in H. apply bind_ok_inv in H. destruct H as [l' [Hl' H]].
+    injection H as <-. eauto 6.
+  - right. rewrite (shake0_match_other fu k e Hng) in H. apply bind_ok_inv in H.
+    destruct H as [x [Hx H]]. injection H as <-. eauto.
+Qed.
+
+Lemma qok_group_len_intro : forall s l, length l <> 1%nat -> quant_operand_ok (EGroup s l) = true.
+Proof. intros s [|a [|b l]] H; cbn in *; try reflexivity. lia. Qed.
 
 Lemma shake0_post : forall fuel e e', inv e = true -> shake0 fuel e = Ok e' -> post e e'.
 Proof.
@@ -1506,16 +1536,41 @@ Proof.
       injection H as <-. apply post_refl. exact Hi0.
   - (* ---------------- EMatch ---------------- *)
     assert (Hi0 := Hi). cbn [inv] in Hi. apply andb_true_iff in Hi. destruct Hi as [Hq Hie].
-    cbn [shake0] in H. apply bind_ok_inv in H. destruct H as [x [Hx H]]. injection H as <-.
-    destruct (IH e x Hie Hx) as [P1 [P2 [P3 [P4 [P5 [P6 [P7 [P8 P9]]]]]]]].
-    assert (Hi' : inv (EMatch k x) = true) by (cbn [inv]; rewrite (P4 Hq), P1; reflexivity).
-    assert (Hsem : forall d, solve_body o (EMatch k x) d = solve_body o (EMatch k e) d)
-      by (intros d; apply P8; exact Hq).
+    assert (Hpk : exists x, e' = EMatch k x /\ inv (EMatch k x) = true /\
+              (forall d, solve_body o (EMatch k x) d = solve_body o (EMatch k e) d) /\
+              (forall s l', x = EGroup s l' -> exists l, e = EGroup s l) /\
+              (forall s l, e = EGroup s l -> exists l', x = EGroup s l' /\ sem_members l l')).
+    { destruct (shake0_match_inv _ _ _ _ H) as [[s [l [l' [-> [Hl' ->]]]]]|[Hng [x [Hx ->]]]].
+      - (* fix D14: a group stays a group; its members are shaken *)
+        destruct (inv_group s l Hie) as [Hs [Hl [y1 [l0 El]]]].
+        pose proof (mapM_Forall2 _ _ _ Hl') as HF.
+        assert (HP : Forall2 post l l').
+        { eapply Forall2_In_impl; [exact HF|]. intros x y Hx _ Hxy. cbn beta in Hxy.
+          apply IH; [|exact Hxy]. apply (forallb_In _ _ _ Hl Hx). }
+        assert (Hil' : forallb inv l' = true).
+        { eapply Forall2_forallb; [exact HP|]. intros x y _ Hp. apply Hp. }
+        assert (Hsm : sem_members l l').
+        { eapply Forall2_In_impl; [exact HP|]. intros x y _ _ Hp. apply Hp. }
+        pose proof (Forall2_length _ _ _ HP) as Hlen.
+        exists (EGroup s l'). split; [reflexivity|]. split; [|split; [|split]].
+        + cbn [inv]. rewrite Hs. apply andb_true_iff. split.
+          * apply qok_group_len_intro. rewrite <- Hlen. apply (qok_group_len _ _ Hq).
+          * cbn [andb]. destruct l' as [|b1 l'0]; [subst l; discriminate Hlen|exact Hil'].
+        + intros d. apply sem_match_group_cong. exact Hsm.
+        + intros s0 l1 E. injection E as <- <-. eauto.
+        + intros s0 l1 E. injection E as <- <-. eauto.
+      - destruct (IH _ x Hie Hx) as [P1 [P2 [P3 [P4 [P5 [P6 [P7 [P8 P9]]]]]]]].
+        exists x. split; [reflexivity|]. split; [|split; [|split]].
+        + cbn [inv]. rewrite (P4 Hq), P1. reflexivity.
+        + intros d. apply P8. exact Hq.
+        + apply P5. exact Hq.
+        + intros s0 l0 E. exfalso. exact (Hng _ _ E). }
+    destruct Hpk as [x [-> [Hi' [Hsem [HP5 HP7]]]]].
     assert (Hall : head_allor (EMatch k x) = true -> head_allor (EMatch k e) = true).
     { intros Hc. destruct k as [|n]; [|discriminate Hc].
       destruct x as [s l'| | | | | | | | | | | | |]; try discriminate Hc.
       destruct s; try discriminate Hc.
-      destruct (P5 Hq BOr l' eq_refl) as [l ->]. reflexivity. }
+      destruct (HP5 BOr l' eq_refl) as [l ->]. reflexivity. }
     split_post.
     + exact Hi'.
     + intros Hc. discriminate Hc.
@@ -1531,7 +1586,7 @@ Proof.
         destruct k as [|n]; [|discriminate Hh].
         destruct e as [s l| | | | | | | | | | | | |]; try discriminate Hh.
         destruct s; try discriminate Hh.
-        destruct (P7 BOr l eq_refl (qok_group_len _ _ Hq)) as [l' [-> Hsm]].
+        destruct (HP7 BOr l eq_refl) as [l' [-> Hsm]].
         rewrite !sb_nested.
         destruct (d f) as [[v|]| |]; cbn [bind]; try reflexivity.
         destruct v; try reflexivity; [|apply Hsem].
@@ -1729,15 +1784,19 @@ Proof.
   eexists; split; [vm_compute; reflexivity|vm_compute; reflexivity].
 Qed.
 
-Example refuted_D14 :
+(* class D14 is fixed in the crate (shake_0 keeps the group a quantifier holds): the former
+   witness `refuted_D14` (verdict false before, true after optimise) now keeps its verdict, and
+   the optimised condition still holds the one-member group *)
+Example fixed_D14 :
   let body := EGroup BOr [ESearch (SAho [MTContains [97%N]; MTContains [98%N]] false) [102%N] false] in
   let r := mk_rule (EMatch (MOf 2) (EIdent [88%N])) [([88%N], body)] in
   let d : doc := fun k => if str_eqb k [102%N] then Some (VStr [97%N; 98%N]) else None in
   matches o0 r d = Ok false /\
-  exists r', optimise o0 (fun k => k) sw_coalesce_shake r = Ok r' /\ matches o0 r' d = Ok true.
+  exists r', optimise o0 (fun k => k) sw_coalesce_shake r = Ok r' /\
+             d_expr (r_det r') = EMatch (MOf 2) body /\ matches o0 r' d = Ok false.
 Proof.
   cbv zeta. split; [vm_compute; reflexivity|].
-  eexists; split; [vm_compute; reflexivity|vm_compute; reflexivity].
+  eexists; split; [vm_compute; reflexivity|]. split; vm_compute; reflexivity.
 Qed.
 
 Example refuted_D16 :
